@@ -3,6 +3,7 @@ package props
 import (
 	"os"
 	"runtime/debug"
+	"strconv"
 	"syscall"
 	"testing"
 	"testing/synctest"
@@ -32,6 +33,11 @@ func TestWorker(t *testing.T) {
 	cpuBudget, heapBudget := 6.0, uint64(768<<20)
 	if d.cpuBudget > 0 {
 		cpuBudget = d.cpuBudget
+	}
+	// Replays of a case that exceeded the CPU budget run with a five-fold budget: only a step that
+	// exceeds it every time is reported (a slow machine must not turn into an alarm).
+	if f, err := strconv.ParseFloat(os.Getenv("VF_CPU_SCALE"), 64); err == nil && f > 0 {
+		cpuBudget *= f
 	}
 	core.StartWatchdog(cpuBudget, heapBudget)
 
